@@ -39,6 +39,8 @@ type nativeResult struct {
 	Obs      map[string]string `json:"obs,omitempty"`
 	Covers   []string          `json:"covers,omitempty"`
 	Mismatch []string          `json:"mismatch,omitempty"`
+	GatePos  int               `json:"gate_pos,omitempty"`
+	GateLen  int               `json:"gate_len,omitempty"`
 }
 
 func caseOf(id string, j Job, v interp.Violation) nativeCase {
@@ -106,7 +108,11 @@ func (r *propRun) nativeReplay(j Job, cases []nativeCase, extraEnv []string, ext
 	}
 	if needClock {
 		// overlay-only copy of wal/wal.go whose time.Now() is the witness's clock
-		if src, err := os.ReadFile(filepath.Join(repoDir, "wal/wal.go")); err == nil && strings.Contains(string(src), "time.Now()") {
+		walSrc := filepath.Join(repoDir, "wal/wal.go")
+		if o, ok := ov[walSrc]; ok {
+			walSrc = o // already instrumented (gated replay): the clock goes on top
+		}
+		if src, err := os.ReadFile(walSrc); err == nil && strings.Contains(string(src), "time.Now()") {
 			mod := strings.Replace(string(src), "time.Now()", "zzvf.WalNow()", -1)
 			mod = strings.Replace(mod, "import (", "import (\n\tzzvf \""+modPath+"/internal/zzvf\"", 1) + "\nvar _ = time.Now\n"
 			wf2 := filepath.Join(dir, "wal_clock.go")
@@ -120,7 +126,7 @@ func (r *propRun) nativeReplay(j Job, cases []nativeCase, extraEnv []string, ext
 	if err := os.WriteFile(of, ob, 0644); err != nil {
 		return nil, "", err
 	}
-	args := []string{"test", "-v", "-vet=off", "-count=1", "-overlay", of, "-run", "^TestVHReplay$", "-timeout", "300s"}
+	args := []string{"test", "-v", "-vet=off", "-count=1", "-overlay", of, "-run", "^TestVHReplay$", "-timeout", "120s"}
 	if race {
 		args = append(args, "-race")
 	}
